@@ -41,6 +41,10 @@ struct K8s {
     /// when a paginated LIST asks for its next page: delete these objects (nobody is told) and answer 410 once
     interrupt_continue: Option<Vec<String>>,
     interrupted: u64,
+    /// the next request for a further page of a paginated LIST is held back until `release` is notified
+    hold_continue: bool,
+    holding: bool,
+    release: Arc<tokio::sync::Notify>,
 }
 
 impl K8s {
@@ -175,6 +179,20 @@ async fn serve(state: Arc<Mutex<K8s>>) -> SocketAddr {
                     let param = |name: &str| target.split(['?', '&']).find_map(|kv| kv.strip_prefix(name).and_then(|r| r.strip_prefix('='))).map(String::from);
                     let limit: Option<usize> = param("limit").and_then(|v| v.parse().ok());
                     let cont: Option<String> = param("continue").filter(|c| !c.is_empty());
+                    let hold = {
+                        let mut st = state.lock().unwrap();
+                        if cont.is_some() && st.hold_continue {
+                            st.hold_continue = false;
+                            st.holding = true;
+                            Some(st.release.clone())
+                        } else {
+                            None
+                        }
+                    };
+                    if let Some(release) = hold {
+                        release.notified().await;
+                        state.lock().unwrap().holding = false;
+                    }
                     let (status, body) = {
                         let mut st = state.lock().unwrap();
                         st.lists += 1;
@@ -282,6 +300,9 @@ pub enum Ev {
     /// 410 Gone; the paginated re-list is cut off after its first page (expired continue token) and the
     /// named objects disappear before the list is retried
     GoneRelistInterrupted { delete: Vec<String> },
+    /// 410 Gone; the paginated re-list is held back after its first page, the offer is read while it is
+    /// incomplete (nothing changed: everything must still be offered), then the re-list goes on
+    GoneRelistHeld,
     /// the watch fails on the server side (ERROR event with code 500, stream closed)
     WatchError,
     /// DELETED and the ERROR event become readable for the client in the same write
@@ -417,6 +438,10 @@ fn run_history(spec: &Spec, counters: &(AtomicU64, AtomicU64)) -> Vec<(String, S
                         st.interrupt_continue = Some(delete.clone());
                         st.gone();
                     }
+                    Ev::GoneRelistHeld => {
+                        st.hold_continue = true;
+                        st.gone();
+                    }
                     Ev::WatchError => st.watch_error(),
                     Ev::DeleteThenWatchError { name } => {
                         st.delete(name);
@@ -428,7 +453,30 @@ fn run_history(spec: &Spec, counters: &(AtomicU64, AtomicU64)) -> Vec<(String, S
                     }
                 }
             }
-            if matches!(ev, Ev::CloseWatch | Ev::Gone | Ev::GoneAndDelete { .. } | Ev::GoneAndApply { .. } | Ev::GoneRelistInterrupted { .. } | Ev::WatchError | Ev::DeleteThenWatchError { .. } | Ev::ApplyThenWatchError { .. }) {
+            if matches!(ev, Ev::GoneRelistHeld) {
+                // wait until the re-list is stuck between two pages, look at the offer, let it go on
+                let t0 = Instant::now();
+                while !state.lock().unwrap().holding {
+                    if t0.elapsed() > Duration::from_secs(8) {
+                        v.push(("watch-not-reestablished".into(), format!("after step {} ({label}) no paginated re-list reached its second page within 8 s", i + 1)));
+                        return v;
+                    }
+                    tokio::time::sleep(Duration::from_millis(5)).await;
+                }
+                // give the adapter the time to take in the first page
+                tokio::time::sleep(Duration::from_millis(50)).await;
+                let snap = adapter.discover().await.unwrap_or_default();
+                counters.0.fetch_add(1, Ordering::Relaxed);
+                let truth = state.lock().unwrap().objects.clone();
+                let n0 = v.len();
+                check(&snap, &truth, i + 1, &format!("{label}, while the re-list is incomplete"), &mut v);
+                let release = state.lock().unwrap().release.clone();
+                release.notify_one();
+                if v.len() > n0 {
+                    break;
+                }
+            }
+            if matches!(ev, Ev::CloseWatch | Ev::Gone | Ev::GoneAndDelete { .. } | Ev::GoneAndApply { .. } | Ev::GoneRelistInterrupted { .. } | Ev::GoneRelistHeld | Ev::WatchError | Ev::DeleteThenWatchError { .. } | Ev::ApplyThenWatchError { .. }) {
                 // wait until the adapter has opened a new watch before the marker is toggled
                 let before = state.lock().unwrap().watches;
                 let t0 = Instant::now();
@@ -618,6 +666,10 @@ pub fn run(cli: Cli) -> ! {
         specs.push(Spec { initial: five.clone(), history: vec![Ev::GoneRelistInterrupted { delete: delete.clone() }], paged: true });
         specs.push(Spec { initial: five.clone(), history: vec![Ev::Apply { name: "c".into(), shape: "shutdown".into() }, Ev::GoneRelistInterrupted { delete: delete.clone() }, Ev::Delete { name: "d".into() }], paged: true });
     }
+    // a re-list that is observed while it is incomplete
+    specs.push(Spec { initial: five.clone(), history: vec![Ev::GoneRelistHeld], paged: true });
+    specs.push(Spec { initial: five.clone(), history: vec![Ev::Apply { name: "c".into(), shape: "shutdown".into() }, Ev::GoneRelistHeld, Ev::Delete { name: "d".into() }], paged: true });
+    specs.push(Spec { initial: five.clone(), history: vec![Ev::Apply { name: "a".into(), shape: "ready-moved".into() }, Ev::GoneRelistHeld, Ev::GoneRelistHeld], paged: true });
     for init in &initials {
         for h in histories(init, if thorough { 2 } else { 1 }, if thorough { 2 } else { 1 }) {
             specs.push(Spec { initial: init.clone(), history: h, paged: true });
@@ -642,7 +694,7 @@ pub fn run(cli: Cli) -> ! {
     rep.set("histories", json!(specs.len()));
     rep.set("list_requests_served", json!(counters.1.load(Ordering::Relaxed)));
     rep.set("exhaustive", json!(true));
-    rep.set("rule", json!("all maximal histories up to the depth over 20 events (ADDED/MODIFIED of two game servers in 6 shapes, DELETED, BOOKMARK, watch closed cleanly, 410 Gone followed by a re-list, 410 Gone with an object deleted / changed while the watch is down, 410 Gone whose paginated re-list is cut off after the first page while listed objects disappear), plus a server-side watch failure (ERROR 500) alone and written together with the DELETED / ADDED / MODIFIED before it, pruned to events enabled in the mock's current truth, from 3 initial LIST contents; after every event a marker object is toggled and awaited (barrier) and the snapshot compared with the reference map. quick: depth 2 without 410 plus 10 selected histories with deletions, re-lists and changes during a watch outage; thorough: depth 3 and depth 4 without 410, every depth-2 history with one 410, paginated depth-2 histories."));
+    rep.set("rule", json!("all maximal histories up to the depth over 20 events (ADDED/MODIFIED of two game servers in 6 shapes, DELETED, BOOKMARK, watch closed cleanly, 410 Gone followed by a re-list, 410 Gone with an object deleted / changed while the watch is down, 410 Gone whose paginated re-list is cut off after the first page while listed objects disappear, 410 Gone whose paginated re-list is held between two pages while the offer is read), plus a server-side watch failure (ERROR 500) alone and written together with the DELETED / ADDED / MODIFIED before it, pruned to events enabled in the mock's current truth, from 3 initial LIST contents; after every event a marker object is toggled and awaited (barrier) and the snapshot compared with the reference map. quick: depth 2 without 410 plus 10 selected histories with deletions, re-lists and changes during a watch outage; thorough: depth 3 and depth 4 without 410, every depth-2 history with one 410, paginated depth-2 histories."));
     rep.sample(json!({"spec": specs[0]}));
     rep.sample(json!({"spec": Spec { initial: vec![("a".into(), "ready".into())], history: vec![Ev::Delete { name: "a".into() }], paged: false }, "expect": "'a' is no longer offered"}));
     rep.assume("the Kubernetes API is a hand-written HTTP/1.1 mock (LIST + chunked WATCH); the kube client, watcher and backoff run unmodified; OS timing only enters through 5-8 s deadlines on barriers");
